@@ -15,6 +15,7 @@ import (
 	"github.com/resonatehq/resonate/internal/kernel/t_api"
 	"github.com/resonatehq/resonate/internal/vx"
 	"github.com/resonatehq/resonate/pkg/idempotency"
+	"github.com/resonatehq/resonate/pkg/callback"
 	"github.com/resonatehq/resonate/pkg/promise"
 	"github.com/resonatehq/resonate/pkg/schedule"
 )
@@ -216,6 +217,12 @@ func VH_H_CreateCallback() {
 		if b != nil {
 			vx.Accepts(b.Timeout == 0, "C15:http-accepts-callback-timeout-zero")
 		}
+		if k.err == nil && k.res.CreateCallback.Status.IsSuccessful() {
+			h, ok := vx.HttpBody(0).(gin.H)
+			cb, _ := h["callback"].(*callback.Callback)
+			p, _ := h["promise"].(*promise.Promise)
+			vx.Assert(ok && cb == k.res.CreateCallback.Callback && p == k.res.CreateCallback.Promise, "C15:http-reply-carries-the-kernel-resource")
+		}
 	}
 }
 func VH_H_CreateSubscription() {
@@ -227,6 +234,12 @@ func VH_H_CreateSubscription() {
 		q := k.req.CreateSubscription
 		vx.Assert(b != nil, "C20:http-kernel-called-only-with-a-bound-request")
 		vx.Assert(q.Id == b.Id && q.PromiseId == b.PromiseId && vx.SameDatum(q.Timeout, b.Timeout) && vx.BytesEq(q.Recv, b.Recv), "C20:http-request-fields-copied")
+		if k.err == nil && k.res.CreateSubscription.Status.IsSuccessful() {
+			h, ok := vx.HttpBody(0).(gin.H)
+			cb, _ := h["callback"].(*callback.Callback)
+			p, _ := h["promise"].(*promise.Promise)
+			vx.Assert(ok && cb == k.res.CreateSubscription.Callback && p == k.res.CreateSubscription.Promise, "C15:http-reply-carries-the-kernel-resource")
+		}
 	}
 }
 func VH_H_ReadSchedule() {
